@@ -5,7 +5,7 @@ import ast
 from typing import Callable, Dict, Iterable, List, Optional, Sequence, Set, Tuple
 
 from ..core import Collector, norm, Unrecognised, AnchorMissing
-from ..pyindex import FuncInfo, ClassInfo, walk_no_nested
+from ..pyindex import FuncInfo, ClassInfo, walk_no_nested, access_path
 from ..calls import CallGraph
 from ..effects import Effects
 from ..paths import function_paths, Ev, walk_event
@@ -185,7 +185,7 @@ def guard_obligation(ctx, col: Collector, rule: str, fi: FuncInfo, name: str,
                      lit_match: Callable[[List[tuple], ast.AST], bool], exc_ids: Iterable[str],
                      protect: Optional[Callable[[Ev], bool]] = None, what: str = '',
                      subst_locals: bool = True, require_loop_over: Optional[str] = None,
-                     mutation_pred: Optional[Callable[[Ev], bool]] = None, when: bool = True) -> bool:
+                     mutation_pred: Optional[Callable[[Ev], bool]] = None, when: bool = True, _inlined: bool = False) -> bool:
     """A guard = a branch test G such that
          (1) some test in `fi` matches `lit_match` (on the conjuncts of its true-branch term),
          (2) every path on which G is true ends in `raise <one of exc_ids>` and nothing protected
@@ -197,6 +197,7 @@ def guard_obligation(ctx, col: Collector, rule: str, fi: FuncInfo, name: str,
     exc_ids = set(exc_ids)
     cons = f'{fi.qualname}:{name}'
     paths = paths_of(fi, ctx.unroll)
+    ctx.current_fn = fi.node
     # collect candidate guard nodes
     gnodes: Dict[int, ast.AST] = {}
     for path in paths:
@@ -212,6 +213,13 @@ def guard_obligation(ctx, col: Collector, rule: str, fi: FuncInfo, name: str,
                         gnodes[id(ev.node)] = ev.node
                 except Exception:
                     pass
+    if not gnodes and not _inlined:
+        # second look with small helpers inlined (extract-method refactorings)
+        from ..inline import inlined_info
+        fi2 = inlined_info(ctx.idx, fi)
+        if ast.dump(fi2.node) != ast.dump(fi.node):
+            return guard_obligation(ctx, col, rule, fi2, name, lit_match, exc_ids, protect, what, subst_locals, require_loop_over,
+                                    mutation_pred, when, _inlined=True)
     if not gnodes:
         # positive evidence of a missing guard = the expected exception class is raised nowhere in the function or in the
         # package functions it calls; if it still is, the guard was only rewritten in a form this rule does not read
@@ -295,7 +303,7 @@ def guard_obligation(ctx, col: Collector, rule: str, fi: FuncInfo, name: str,
                     for gid, g in gnodes.items():
                         ls = loops[gid]
                         # loops of the guard that do not also contain the protected statement
-                        outer = [l for l in ls if pn is None or not node_in(l, pn)]
+                        outer = [l for l in ls if pn is None or not node_in_loop_body(l, pn)]
                         if not outer:
                             # same iteration (or no loop): the guard must be false after the last
                             # entry of its innermost loop before the protected event
@@ -366,6 +374,52 @@ def raises_in_closure(ctx, fi: FuncInfo, exc_ids, depth: int = 2) -> List[str]:
             # nested functions / lambdas defined inside
         frontier = nxt
     return out
+
+
+def node_in_loop_body(loop: ast.AST, inner: ast.AST) -> bool:
+    """inner is executed per iteration of loop (its `else` block runs after exhaustion, i.e. outside)."""
+    return any(n is inner for st in getattr(loop, 'body', []) for n in ast.walk(st))
+
+
+def value_sources(fn: ast.AST, name: str, depth: int = 0) -> List[ast.AST]:
+    """Expressions a local name can be bound to by assignments in fn (tuple unpacking resolved by position; a name bound
+    to another plain name is followed)."""
+    out: List[ast.AST] = []
+    if depth > 6:
+        return out
+    for n in walk_no_nested(fn):
+        if isinstance(n, ast.Assign):
+            for t in n.targets:
+                if isinstance(t, ast.Name) and t.id == name:
+                    out.append(n.value)
+                elif isinstance(t, (ast.Tuple, ast.List)) and isinstance(n.value, (ast.Tuple, ast.List)) and len(t.elts) == len(n.value.elts):
+                    for te, ve in zip(t.elts, n.value.elts):
+                        if isinstance(te, ast.Name) and te.id == name:
+                            out.append(ve)
+        elif isinstance(n, ast.AnnAssign) and isinstance(n.target, ast.Name) and n.target.id == name and n.value is not None:
+            out.append(n.value)
+    res: List[ast.AST] = []
+    for v in out:
+        if isinstance(v, ast.Name) and v.id != name:
+            sub = value_sources(fn, v.id, depth + 1)
+            res.extend(sub if sub else [v])
+        else:
+            res.append(v)
+    return res
+
+
+def resolve_names(fn: ast.AST, e: ast.AST, depth: int = 0) -> str:
+    """Source of e with local names that are bound exactly once to an access path replaced by that path."""
+    import copy as _copy
+
+    class R(ast.NodeTransformer):
+        def visit_Name(self, node):
+            if isinstance(node.ctx, ast.Load):
+                vs = value_sources(fn, node.id)
+                if len(vs) == 1 and access_path(vs[0]) is not None and depth < 4:
+                    return ast.parse(resolve_names(fn, vs[0], depth + 1), mode='eval').body
+            return node
+    return norm(R().visit(_copy.deepcopy(e)))
 
 
 def node_in(outer: ast.AST, inner: ast.AST) -> bool:
